@@ -171,6 +171,16 @@ Proof. split; [vm_compute; reflexivity|]. split; [vm_compute; reflexivity|]. pro
 Theorem C14_parse_full_nosemi : forall b, wfp_block b = true -> csf_block b = true ->
   parse_from l_grammar L_EXP (render_block b) = PFuel \/ parse_ok b.
 Proof. exact parse_full_nosemi. Qed.
+(** C14_parse_total (parse_ok without the fuel disjunct) is NOT proved: the calculus speaks of "all sufficiently
+    large fuel" and carries no explicit bound, so adequacy of peg_fuel = 64 + 24 * length is open. What is
+    proved is that the fuel is the ONLY residual: on the domain, parse_ok holds exactly when the computed fuel
+    does not run out (so one evaluation of parse_from that is not PFuel -- which L1a / L1b perform on every
+    generated script -- is a complete verdict). *)
+Theorem C14_parse_total_partial : forall b, wfp_block b = true -> csf_block b = true ->
+  (parse_ok b <-> parse_from l_grammar L_EXP (render_block b) <> PFuel).
+Proof. exact parse_total_iff. Qed.
+Check C14_parse_total_partial : forall b, wfp_block b = true -> csf_block b = true ->
+  (parse_ok b <-> parse_from l_grammar L_EXP (render_block b) <> PFuel).
 Check C14_parse_full_nosemi : forall b, wfp_block b = true -> csf_block b = true ->
   parse_from l_grammar L_EXP (render_block b) = PFuel \/ parse_ok b.
 
@@ -371,6 +381,7 @@ Print Assumptions C14_parse_indented_from.
 Print Assumptions C14_parse_indented_extends.
 Print Assumptions C14_parse_semicolon.
 Print Assumptions C14_parse_full_nosemi.
+Print Assumptions C14_parse_total_partial.
 Print Assumptions C14_parse_while_pos.
 Print Assumptions C14_parse_instances.
 Print Assumptions C14_anchor_sound.
